@@ -118,3 +118,27 @@ fn c13_filter_is_homogeneous() {
 	kani::cover!(!neg && s1 != 0.0, "w:doubled");
 	std::mem::forget(a); std::mem::forget(b);
 }
+
+// @h prop=C07 tier=quick kind=main timeout=900
+// @bounds real Filter with its command channel: set_mode written zero, one or two times (symbolic modes) before a callback; on_start_processing twice
+// @funcs Filter::on_start_processing, CommandReader::read
+// @catches an effect command lost, applied late, or the first of a burst winning
+#[kani::proof]
+#[kani::unwind(3)]
+fn c07_filter_mode_command_applied_exactly_once() {
+	let (mut w, r) = command_writers_and_readers();
+	let mut fx = Filter { command_readers: r, mode: FilterMode::LowPass, cutoff: Parameter::new(Value::Fixed(1000.0), 1000.0), resonance: Parameter::new(Value::Fixed(0.0), 0.0), mix: Parameter::new(Value::Fixed(Mix(1.0)), Mix(1.0)), ic1eq: Frame::ZERO, ic2eq: Frame::ZERO };
+	let n: u8 = kani::any();
+	kani::assume(n <= 2);
+	let (m1, m2) = (kv_mode(), kv_mode());
+	if n >= 1 { w.set_mode.write(m1); }
+	if n >= 2 { w.set_mode.write(m2); }
+	fx.on_start_processing();
+	let want = match n { 0 => FilterMode::LowPass, 1 => m1, _ => m2 };
+	assert!(fx.mode == want, "the last mode written since the previous callback is the one in force");
+	fx.mode = FilterMode::Notch;
+	fx.on_start_processing();
+	assert!(fx.mode == FilterMode::Notch, "a second drain does not re-apply the command");
+	kani::cover!(n == 2 && m1 != m2, "w:burst");
+	std::mem::forget(fx); std::mem::forget(w);
+}
